@@ -4,9 +4,11 @@ package main
 // (coq/theories/Base/GoVal.v, Schema/Ast.v), with the string interner and the oracle tables.
 
 import (
+	"bytes"
 	"encoding/json"
 	"fmt"
 	"math"
+	"math/big"
 	"reflect"
 	"regexp"
 	"sort"
@@ -406,4 +408,68 @@ func deepCopyJSON(v interface{}) interface{} {
 func isNilPtr(v interface{}) bool {
 	rv := reflect.ValueOf(v)
 	return rv.Kind() == reflect.Ptr && rv.IsNil()
+}
+
+// decOfLiteral parses a JSON number literal into mantissa * 10^exp exactly.
+func decOfLiteral(lit string) (*big.Int, int, bool) {
+	mant := lit
+	exp := 0
+	if i := strings.IndexAny(lit, "eE"); i >= 0 {
+		mant = lit[:i]
+		e, err := strconv.Atoi(lit[i+1:])
+		if err != nil {
+			return nil, 0, false
+		}
+		exp = e
+	}
+	neg := strings.HasPrefix(mant, "-")
+	mant = strings.TrimPrefix(mant, "-")
+	if i := strings.Index(mant, "."); i >= 0 {
+		frac := mant[i+1:]
+		mant = mant[:i] + frac
+		exp -= len(frac)
+	}
+	m, ok := new(big.Int).SetString(mant, 10)
+	if !ok {
+		return nil, 0, false
+	}
+	if neg {
+		m.Neg(m)
+	}
+	return m, exp, true
+}
+
+// decTable lists, for every number literal of the given JSON texts, (float64 bits, mantissa, exponent).
+func decTable(raws ...[]byte) string {
+	seen := map[uint64]struct{}{}
+	var out []string
+	for _, raw := range raws {
+		dec := json.NewDecoder(bytes.NewReader(raw))
+		dec.UseNumber()
+		for {
+			tok, err := dec.Token()
+			if err != nil {
+				break
+			}
+			n, ok := tok.(json.Number)
+			if !ok {
+				continue
+			}
+			f, err := strconv.ParseFloat(string(n), 64)
+			if err != nil {
+				continue
+			}
+			bits := math.Float64bits(f)
+			if _, dup := seen[bits]; dup {
+				continue
+			}
+			m, e, ok := decOfLiteral(string(n))
+			if !ok {
+				continue
+			}
+			seen[bits] = struct{}{}
+			out = append(out, fmt.Sprintf("(%d %s %d)", bits, m.String(), e))
+		}
+	}
+	return "(" + strings.Join(out, " ") + ")"
 }
